@@ -268,6 +268,8 @@ Definition c01_ok (ops : list op) (outs : list out) : bool :=
 (** ** C02 oracle *)
 Definition raw_kind (k : kind) : bool :=
   match k with StoreLabel _ | StoreProp _ _ | Neigh _ _ | Degree _ => true | _ => false end.
+Definition triple_kind (k : kind) : bool :=
+  match k with TripleQ _ | TripleApi _ => true | _ => false end.
 Definition inplace_op (o : op) : bool :=
   match o with
   | SetProp _ _ _ _ _ | RemoveProp _ _ _ _ | AddLabel _ _ _ _ | RemoveLabel _ _ _ _ | DeleteNode _ _ _ _ => true
@@ -301,6 +303,8 @@ Definition pair_classes (ops : list op) (outs : list out) (d1 d2 : Z * Z * Z) : 
                                    (firstn (Z.to_nat (s1 + l1)) ops) in
       let cls (i : Z) : Z :=
           let k := nth (Z.to_nat i) k2 AllScan in
+          (* no listed finding touches the committed triple set: a wrong triple answer is never explained *)
+          if triple_kind k then 0 else
           match how with
           | EndDrop => 4
           | EndRollback =>
@@ -329,11 +333,29 @@ Definition c02_checked (ops : list op) (outs : list out) (ds : list (Z * Z * Z))
   Z.of_nat (length (filter (fun p => match check_pair ops outs (fst p) (snd p) with Some _ => true | None => false end)
                            (dump_pairs ds))).
 
+(** transaction control follows the specification's state machine: [Begin] succeeds iff the session has no open
+    transaction, [Commit] / [Rollback] succeed iff it has one (a commit never reports a conflict: nothing on
+    the session path fills the write sets).  Positions where the recorded output says otherwise. *)
+Fixpoint ctl_fails_from (sp : sstate) (i : Z) (ops : list op) (outs : list out) : list Z :=
+  match ops, outs with
+  | o :: ro, x :: rx =>
+      let bad := match o with
+                 | Begin s => negb (out_eqb x (match s_view sp s with None => OUnit | Some _ => OErr end))
+                 | Commit s | Rollback s => negb (out_eqb x (match s_view sp s with Some _ => OUnit | None => OErr end))
+                 | DropSession _ => negb (out_eqb x OUnit)
+                 | _ => false
+                 end in
+      (if bad then [i] else []) ++ ctl_fails_from (spec_step sp o x) (i + 1) ro rx
+  | _, _ => []
+  end.
+Definition ctl_fails (ops : list op) (outs : list out) : list Z := ctl_fails_from sinit 0 ops outs.
+
 (** one evaluation per history: model == implementation, failing dump pairs with classes, number of checkable
     transactions, and [c02_k c] for c = 1, 2, 4, 5 *)
-Definition c02_report (ops : list op) (outs : list out) (ds : list (Z * Z * Z)) : bool * list (Z * Z) * Z * list bool :=
+Definition c02_report (ops : list op) (outs : list out) (ds : list (Z * Z * Z))
+  : bool * list (Z * Z) * Z * list bool * list Z :=
   let f := c02_fails ops outs ds in
-  (chk_hist ops outs, f, c02_checked ops outs ds, map (fun c => c02_k_of c f) [1; 2; 4; 5]).
+  (chk_hist ops outs, f, c02_checked ops outs ds, map (fun c => c02_k_of c f) [1; 2; 4; 5], ctl_fails ops outs).
 
 (** ** dumps (used by the witnesses of the C02 theorems; the harness builds its dumps the same way) *)
 Definition node_dump_kinds (n : Z) : list kind :=
